@@ -67,14 +67,14 @@ def static_named_outputs():
     return out
 
 
-def static_fresh_workspaces():
+def static_fresh_workspaces(prop='C02'):
     """Ownership obligation: the arrays handed to the engine to receive the gradient, the Hessian and the BHHH matrix are
     allocated by THIS call (`np.empty(...)`, unconditionally, last assignment before the engine call), so the outputs of two
     calls never share storage (the engine returns the arrays it was given; np.asarray does not copy)."""
     from pyvc.driver import Extra
     from pyvc.repo import get_repo
     t0 = time.time()
-    name = 'C02:static:calculate_likelihood_and_derivatives:output-arrays-allocated-by-this-call'
+    name = f'{prop}:static:calculate_likelihood_and_derivatives:output-arrays-allocated-by-this-call'
     ci = get_repo().find_class('BIOGEME')
     fi = ci.methods.get('calculate_likelihood_and_derivatives') if ci else None
     if fi is None:
